@@ -209,7 +209,43 @@ def gen_doc(rng, mode: str) -> dict:
     # die's cells given as YAML vectors (not flagged yet) with refinement depths (i * k) % 4
     doc["entry"] = "cia" if rng.random() < 0.65 else "ia"
     doc["depth_k"] = rng.choice([0, 1, 1, 3]) if doc["entry"] == "ia" else 0
+    # second entry point only: some refinable descriptors arrive as `Rectangle` objects ALREADY flagged fixed although no fixed
+    # module owns them — `initial_allocation` skips flagged cells and `_detect_fixed_rectangles` does not claim them, so they
+    # are dropped from the result (the model does the same; the oracle treats them as blocked area)
+    if doc["entry"] == "ia" and rng.random() < 0.3:
+        doc["preflag"] = rng.randint(0, 4)
+    if rng.random() < 0.22:
+        gen_history(rng, doc, U)
     return doc
+
+
+def gen_history(rng, doc, U: Fr) -> None:
+    """what the placement tools do to a netlist between its loading and (another) initial allocation: optionally allocate once
+    (`prealloc` — creates the squares, evaluates every bounding box), then move non-fixed modules rigidly:
+      recenter      `m.center = Point(...); m.recenter_rectangles()`          (hard modules; tools/spectral, tools/glbfloor)
+      inplace       `r.center.x += dx; r.center.y += dy` for each rectangle    (the Point object is mutated, no setter runs)
+      setter        `r.center = Point(...)` for each rectangle
+      centre        `m.center.x += dx` of a rectangle-less module (after `prealloc` its square SHARES that Point object)
+    The allocation that is compared and judged is the one made AFTER the moves; its oracle reads the CURRENT centre / shape
+    fields of the module rectangles (never a bounding box)."""
+    mode = doc["mode"]
+    movable = [m for m in doc["modules"] if m["kind"] != "fixed" and (m["rects"] or "center" in m)]
+    if not movable:
+        return
+    moves = []
+    for m in rng.sample(movable, min(len(movable), rng.choice([1, 1, 2]))):
+        dx = float(Fr(rng.randint(-4, 4), 2) * U)
+        dy = float(Fr(rng.randint(-4, 4), 2) * U)
+        if dx == 0 and dy == 0:
+            dx = float(U)
+        if not m["rects"]:
+            how = "centre"
+        elif m["kind"] == "hard" and (mode == "F" or len(m["rects"]) == 1) and rng.random() < 0.5:
+            how = "recenter"
+        else:
+            how = rng.choice(["inplace", "inplace", "setter"])
+        moves.append({"name": m["name"], "how": how, "dx": dx, "dy": dy})
+    doc["history"] = {"prealloc": rng.random() < 0.55, "moves": moves}
 
 
 def render(doc) -> tuple[str, str]:
@@ -260,6 +296,18 @@ def run_impl(doc) -> dict:
         Rectangle.undefine_epsilon()
         res.update(status="rejected", exc=type(ex).__name__, msg=str(ex)[:160])
         return res
+    hist = doc.get("history")
+    if hist:
+        try:
+            _apply_history(doc, hist, die, netlist)
+            refinable, fixed = die.floorplanning_rectangles()
+        except Exception as ex:   # a move the library refuses (e.g. recenter on a module without centre): not a case
+            Rectangle.undefine_epsilon()
+            res.update(status="rejected", exc="history:" + type(ex).__name__, msg=str(ex)[:160])
+            return res
+        # the oracle's view of the modules NOW: centre / shape FIELDS (a bounding box is never read here)
+        res["shapes_now"] = {m.name: [[r.center.x, r.center.y, r.shape.w, r.shape.h] for r in m.rectangles] for m in netlist.modules}
+        res["centres_now"] = {m.name: (None if m.center is None else [m.center.x, m.center.y]) for m in netlist.modules}
     mods = []
     for m in netlist.modules:
         t = f"{m.name} {int(m.is_fixed)} {len(m.rectangles)}"
@@ -277,10 +325,25 @@ def run_impl(doc) -> dict:
                           "".join(" " + _rect_tok(r, mode) for r in refinable) + f" {len(fixed)}" +
                           "".join(" " + _rect_tok(r, mode) for r in fixed) + f" {len(mods)}" + "".join(" " + t for t in mods))
     else:
-        descs = [(tuple(r.vector_spec), {}, d) for r, d in zip(refinable + fixed, depths)]
-        res["request"] = (f"{mode} ia {sc(epsA, mode)} {int(doc['iz'])} {len(descs)}" + "".join(
-            f" {sc(v[0], mode)} {sc(v[1], mode)} {sc(v[2], mode)} {sc(v[3], mode)} {v[4]} 0 0 {d}" for v, _, d in descs) +
-            f" {len(mods)}" + "".join(" " + t for t in mods))
+        from frame.geometry.geometry import Point, Shape
+        salt = doc.get("preflag")
+        flagged = [] if salt is None else [i for i in range(len(refinable)) if (i * 7 + salt) % 5 == 0]
+        if len(flagged) == len(refinable):
+            flagged = flagged[1:]                      # keep a refinable cell
+        descs, toks = [], []
+        for i, (r, d) in enumerate(zip(refinable + fixed, depths)):
+            v = tuple(r.vector_spec)
+            if i in flagged:
+                hard = (i + salt) % 2 == 0
+                obj = Rectangle(center=Point(v[0], v[1]), shape=Shape(v[2], v[3]), region=v[4], fixed=True, hard=hard)
+                descs.append((obj, {}, d))
+                toks.append(f" {sc(v[0], mode)} {sc(v[1], mode)} {sc(v[2], mode)} {sc(v[3], mode)} {v[4]} 1 {int(hard)} {d}")
+            else:
+                descs.append((v, {}, d))
+                toks.append(f" {sc(v[0], mode)} {sc(v[1], mode)} {sc(v[2], mode)} {sc(v[3], mode)} {v[4]} 0 0 {d}")
+        res["preflagged"] = [list(res["cells_in"][i][0]) for i in flagged]
+        res["request"] = (f"{mode} ia {sc(epsA, mode)} {int(doc['iz'])} {len(descs)}" + "".join(toks) +
+                          f" {len(mods)}" + "".join(" " + t for t in mods))
     res["stage"] = "call"
     try:
         if entry == "cia":
@@ -316,6 +379,41 @@ def run_impl(doc) -> dict:
         res.update(status="err:" + type(ex).__name__, exc=type(ex).__name__, msg="while reading the result: " + str(ex)[:120])
     Rectangle.undefine_epsilon()
     return res
+
+
+def _apply_history(doc, hist, die, netlist) -> None:
+    from frame.geometry.geometry import Point
+    if hist["prealloc"]:
+        try:
+            if doc.get("entry", "cia") == "cia":
+                create_initial_allocation(die, doc["iz"])
+            else:
+                refinable, fixed = die.floorplanning_rectangles()
+                Allocation([(tuple(r.vector_spec), {}, 0) for r in refinable + fixed]).initial_allocation(netlist, doc["iz"])
+        except (AssertionError, ZeroDivisionError):
+            pass        # the judged call will meet the same condition (or not, after the moves)
+    for mv in hist["moves"]:
+        m = netlist.get_module(mv["name"])
+        dx, dy = mv["dx"], mv["dy"]
+        if mv["how"] == "recenter":
+            if m.center is None:
+                m.calculate_center_from_rectangles()
+            m.center = Point(m.center.x + dx, m.center.y + dy)
+            m.recenter_rectangles()
+        elif mv["how"] == "inplace":
+            seen = set()
+            for r in m.rectangles:
+                if id(r.center) in seen:
+                    continue
+                seen.add(id(r.center))
+                r.center.x += dx
+                r.center.y += dy
+        elif mv["how"] == "setter":
+            for r in m.rectangles:
+                r.center = Point(r.center.x + dx, r.center.y + dy)
+        else:   # "centre": the module's own centre Point, in place
+            m.center.x += dx
+            m.center.y += dy
 
 
 # ------------------------------------------------------------------------------------------------ model reply
@@ -430,20 +528,27 @@ def _near_tie(ratios) -> bool:
 # ------------------------------------------------------------------------------------------------ exact oracle
 def doc_shapes(doc, impl=None):
     """module name → list of exact rectangles ([cx,cy,w,h] Fractions): the document's rectangles, or the square
-    of a rectangle-less module (exact root on the Q stream, `math.sqrt` on the F stream)."""
+    of a rectangle-less module (exact root on the Q stream, `math.sqrt` on the F stream).  With a history (`doc["history"]`)
+    the rectangles are the ones the modules hold right before the judged call — their centre / shape FIELDS as read by
+    `run_impl` (`shapes_now`), the square being taken around the module's CURRENT centre."""
     shapes, exact_sq = {}, True
+    now = (impl or {}).get("shapes_now") if doc.get("history") else None
     for m in doc["modules"]:
+        if now is not None and now.get(m["name"]):
+            shapes[m["name"]] = [[Fr(v) for v in r[:4]] for r in now[m["name"]]]
+            continue
         if m["rects"]:
             shapes[m["name"]] = [[Fr(v) for v in r[:4]] for r in m["rects"]]
             continue
         if "center" not in m:
             shapes[m["name"]] = None
             continue
+        centre = m["center"] if now is None else impl["centres_now"][m["name"]]
         tot = sum(Fr(v) for _, v in m["area"])
         s = Fr(math.isqrt(tot.numerator), math.isqrt(tot.denominator))
         if s * s != tot:
             s, exact_sq = Fr(math.sqrt(float(tot))), False
-        shapes[m["name"]] = [[Fr(m["center"][0]), Fr(m["center"][1]), s, s]]
+        shapes[m["name"]] = [[Fr(centre[0]), Fr(centre[1]), s, s]]
     return shapes, exact_sq
 
 
@@ -451,11 +556,13 @@ def spec(ctx: Ctx, doc, impl) -> list:
     """the clauses of FV/Props/C03.lean on the implementation's result; returns the exact ratios seen (for tie detection)."""
     mode = doc["mode"]
     size = len(doc["modules"]) + len(doc["regions"])
-    shapes, exact_sq = doc_shapes(doc)
+    shapes, exact_sq = doc_shapes(doc, impl)
     wellformed = all(v is not None for v in shapes.values())
     fixed_mods = [m["name"] for m in doc["modules"] if m["kind"] == "fixed"]
     die = [Fr(doc["W"]) / 2, Fr(doc["H"]) / 2, Fr(doc["W"]), Fr(doc["H"])]
     blocked = [[Fr(v) for v in r[:4]] for r in doc["regions"] if r[4] == "#"]
+    # descriptors that arrived flagged fixed without an owner are dropped by `initial_allocation`: no cell there
+    blocked += [[Fr(v) for v in r] for r in impl.get("preflagged", [])]
     fixed_rects = [(n, r) for n in fixed_mods for r in shapes[n]]
     scale = max(Fr(1), die[2], die[3])
     exact = mode == "Q" and exact_sq
@@ -496,7 +603,7 @@ def spec(ctx: Ctx, doc, impl) -> list:
         if len(got) != len(want):
             fail("square_def:rectangle-count", {"module": m["name"], "got": got})
             continue
-        if not m["rects"]:
+        if not m["rects"] and not (doc.get("history") and impl.get("shapes_now", {}).get(m["name"])):
             g = got[0]
             t = Fr(0) if exact else Fr(1, 10 ** 12) * scale
             if any(abs(Fr(a) - b) > t for a, b in zip(g[:4], want[0])) or g[4:] != ["_", False, False]:
@@ -612,13 +719,18 @@ def one(ctx: Ctx, doc, reqs, todo) -> None:
     todo.append((doc, impl, ratios))
     kinds = sorted({m["kind"] + ("" if m["rects"] else "-square") for m in doc["modules"]})
     nontrivial = impl["status"] == "ok" and any(0 < x < 1 for x in ratios)
-    ctx.case(doc["mode"], render(doc) + (doc["iz"], doc["split"], doc.get("entry"), doc.get("depth_k")), nontrivial,
+    ctx.case(doc["mode"], render(doc) + (doc["iz"], doc["split"], doc.get("entry"), doc.get("depth_k"), repr(doc.get("history")), doc.get("preflag")), nontrivial,
              sample={"die": render(doc)[0], "netlist": render(doc)[1], "iz": doc["iz"], "split": doc["split"], "entry": doc.get("entry"),
                      "status": impl["status"], "cells": len(impl.get("cells", []))})
     ctx.count("status:" + impl["status"])
     ctx.count("include_zero:" + str(doc["iz"]))
     ctx.count("entry:" + doc.get("entry", "cia"))
     ctx.count("refined-first:" + str(bool(doc["split"])))
+    if impl.get("preflagged"):
+        ctx.count("ia:descriptors-flagged-fixed-but-unowned")
+    if doc.get("history"):
+        ctx.count("history:" + ("allocated-before," if doc["history"]["prealloc"] else "") + "moved:" +
+                  "+".join(sorted({mv["how"] for mv in doc["history"]["moves"]})))
     for k in kinds:
         ctx.count("has:" + k)
     if any(r[4] == "#" for r in doc["regions"]):
